@@ -662,7 +662,13 @@ func (c *Client) Start() (addr net.Addr, err error) {
 	cmd.Stdin = os.Stdin
 
 	if c.config.SecureConfig != nil {
-		if ok, err := c.config.SecureConfig.Check(cmd.Path); err != nil {
+		// os/exec evaluates a relative Path relative to Dir, so verify the
+		// file that will actually be executed.
+		path := cmd.Path
+		if cmd.Dir != "" && !filepath.IsAbs(path) {
+			path = filepath.Join(cmd.Dir, path)
+		}
+		if ok, err := c.config.SecureConfig.Check(path); err != nil {
 			return nil, fmt.Errorf("error verifying checksum: %s", err)
 		} else if !ok {
 			return nil, ErrChecksumsDoNotMatch
